@@ -28,7 +28,7 @@ CLS = {"authorization_code": 0, "access_token": 1, "refresh_token": 2, "id_token
 
 class RealSession:
     def __init__(self, oidc=True, jwt_access=False, client_over=None, revoke_refresh_on_issue=False, start=1_700_000_000,
-                 rules="explicit", empty3=False):
+                 rules="explicit", empty3=False, deny=False):
         """rules: how the usage rules reach the provider - "explicit" (grant_config spells max_usage: 1 for codes),
         "implied" (grant_config lists supports_minting / expires_in only: the single use of a code is the library's own
         default), "per-client" (the same implied rules as token_usage_rules of every client, no grant_config rules)"""
@@ -54,6 +54,14 @@ class RealSession:
                                       authz=authz, endpoints=eps)
         c3 = self.server.context.cdb["client_12"]
         c3.pop("allowed_scopes", None)
+        # deny: the provider-wide preference deny_unknown_scopes is on (requests asking for more than the client may have
+        # are refused), and client_1 overrides it for itself (deny_unknown_scopes: False -> its requests are filtered
+        # as usual).  The generator keeps the requests of the other clients inside their allowed sets, so the model
+        # (filtering only) describes the run.
+        self.deny = deny
+        if deny:
+            self.server.context.set_preference("deny_unknown_scopes", True)
+            self.server.context.cdb["client_1"]["deny_unknown_scopes"] = False
         self.empty3 = empty3
         if empty3:
             c3["allowed_scopes"] = []      # allowed no scope at all; absent = every scope the provider knows
@@ -423,6 +431,7 @@ def coq_state(rs):
 
 
 SCOPES = ["openid", "profile", "email", "address", "phone", "offline_access", "custom"]
+SCOPES_KNOWN = ["openid", "profile", "email", "address", "phone", "offline_access"]
 
 
 def gen_history(rng, n, focus="mixed"):
@@ -489,6 +498,13 @@ def materialise(rs, p):
             p = ("authz", u0, c0, sc)
         if rs.oidc and "openid" not in sc:     # an OIDC authorization request must ask for openid
             sc.insert(0, "openid")
+        if getattr(rs, "deny", False) and p[2] != "client_1":
+            al = rs.ctx.cdb[p[2]].get("allowed_scopes")
+            if al is not None:
+                sc = [x for x in sc if x in al]
+            sc = [x for x in sc if x in SCOPES_KNOWN]
+            if not sc:      # with the policy on, a request without any scope parameter is outside the modelled fragment
+                sc = [(al or SCOPES_KNOWN)[-1]] if (al or SCOPES_KNOWN) else sc
         return ("authz", p[1], p[2], sc)
     if k == "natural":
         # the next step an honest client would take
